@@ -183,11 +183,13 @@ class Program:
         self._impl_cache = {}
         self.by_method = {}       # method name -> [def name]
         self.closures = {}        # "file:l:c: l:c" -> def name
+        self.closures_all = {}    # the same location can have several bodies (closures inside macro-generated items)
         self.promoted = {}
         self.impl_info = {}       # def name -> (self_type_lastseg, trait_str or None)
         self.enum_variants = {}   # enum last-seg -> [variant names] (from source)
         self.struct_fields = {}   # struct last-seg -> [field names] (declaration order = MIR field index)
         self._parse_promoted(mir_text)
+        self._parse_consts(mir_text)
         self.external = {"std", "core", "alloc"}
         try:
             for m in re.finditer(r'^name = "([^"]+)"', open(os.path.join(src_root, "Cargo.lock")).read(), re.M):
@@ -196,16 +198,54 @@ class Program:
         except Exception:
             pass
         for name, fn in self.fns.items():
-            m = re.search(r"\{closure#\d+\}$", name)
+            m = re.search(r"\{closure#\d+\}(#\d+)?$", name)
             if m and fn.params:
                 t = fn.params[0][1]
                 mm = re.search(r"\{closure@([^}]*)\}", t)
                 if mm:
                     self.closures[mm.group(1)] = name
+                    self.closures_all.setdefault(mm.group(1), []).append(name)
                 continue
-            meth = name.split("::")[-1]
+            meth = re.sub(r"#\d+$", "", name).split("::")[-1]
             self.by_method.setdefault(meth, []).append(name)
         self._scan_enums()
+
+    def _parse_consts(self, text):
+        self.consts = {}
+        for m in re.finditer(r"^(?:const|static) (?!.*::promoted\[)(.*): ([^=]*?) = \{$", text, re.M):
+            body_start = m.end()
+            end = text.find("\n}\n", body_start)
+            name = m.group(1)
+            try:
+                fn = list(parse_mir("fn __const() -> %s {\n" % m.group(2) + text[body_start:end] + "\n}\n").values())[0]
+            except Exception:
+                continue
+            self.consts.setdefault(self._const_key(name), []).append((name, fn))
+        for m in re.finditer(r"^(?:const|static) (?!.*::promoted\[)(.*): ([^=]*?) = (const .*);$", text, re.M):
+            try:
+                fn = list(parse_mir("fn __const() -> %s {\n    bb0: {\n        _0 = %s;\n        return;\n    }\n}\n" % (m.group(2), m.group(3))).values())[0]
+            except Exception:
+                continue
+            self.consts.setdefault(self._const_key(m.group(1)), []).append((m.group(1), fn))
+
+    @staticmethod
+    def _const_key(name):
+        parts = [x for x in split_top(re.sub(r"<impl at [^>]*>::", "", name), "::") if x]
+        if parts and parts[-1].startswith("{"):
+            return "::".join(parts[-3:])
+        return parts[-1] if parts else name
+
+    def resolve_const(self, raw):
+        cands = self.consts.get(self._const_key(raw), [])
+        if len(cands) == 1:
+            return cands[0][1]
+        parts = split_path(raw)
+        if len(parts) >= 2:
+            ty = last_seg(parts[-2])
+            hit = [fn for n, fn in cands if self.impl_of(n + "::x")[0] == ty or ("::" + ty + "::") in n]
+            if len(hit) == 1:
+                return hit[0]
+        return None
 
     def _parse_promoted(self, text):
         for m in re.finditer(r"^const (.*)::promoted\[(\d+)\]: (.*) = \{$", text, re.M):
@@ -214,7 +254,7 @@ class Program:
             body = "fn __promoted() -> %s {\n" % m.group(3) + text[body_start:end] + "\n}\n"
             fn = list(parse_mir(body).values())[0]
             owner = m.group(1)
-            self.promoted.setdefault((owner.split("::")[-1], int(m.group(2))), []).append((owner, fn))
+            self.promoted.setdefault((self._owner_method(owner), int(m.group(2))), []).append((owner, fn))
 
     def _scan_enums(self):
         for root, _, files in os.walk(os.path.join(self.src_root, "src")):
@@ -242,11 +282,19 @@ class Program:
                     body = re.sub(r"//[^\n]*", "", s[m.end():k])
                     body = re.sub(r"#\[[^\]]*\]", "", body)
                     names = []
+                    discr, nxt = {}, 0
                     for part in split_top(body):
                         mm = re.match(r"^\s*(\w+)", part)
                         if mm:
                             names.append(mm.group(1))
+                            md = re.search(r"=\s*(-?\d+)\s*$", part.strip())
+                            if md:
+                                nxt = int(md.group(1))
+                            discr[mm.group(1)] = nxt
+                            nxt += 1
                     self.enum_variants.setdefault(m.group(1), names)
+                    if any(discr[n] != i for i, n in enumerate(names)):
+                        ENUM_DISCR.setdefault(m.group(1), discr)
 
     def impl_of(self, defname):
         """(self type last segment, trait string|None) of the impl a def lives in, read from source"""
@@ -298,6 +346,21 @@ class Program:
                     res = (ty, trait)
                 except Exception:
                     pass
+        if res[0] is not None and "$" in res[0] and defname in self.fns:
+            # macro-generated impl: the self type is a macro parameter; take it from the signature
+            fn = self.fns[defname]
+            tr = res[1].replace("$byte_count", str(32)) if res[1] else None
+            first = fn.params[0][1] if fn.params else ""
+            cand = last_seg(first) if re.match(r"^&?\s*(mut )?[\w:]+$", first.strip()) and last_seg(first) not in INT_TYPES else None
+            if cand is None or cand in ("str", "Vec", "String"):
+                r_ = fn.ret
+                k = find_top(r_, "<")
+                if last_seg(r_) in ("Result", "Option") and k > 0:
+                    r_ = split_top(r_[k + 1:match_close(r_, k)])[0]
+                cand = last_seg(r_)
+            if res[1] and "$" in res[1] and fn.params:
+                tr = re.sub(r"\[u8; \$byte_count\]", fn.params[0][1], res[1])
+            res = (cand, tr)
         self.impl_info[defname] = res
         return res
 
@@ -350,6 +413,11 @@ class Program:
                 if len(cands) > 1 and cands[0][0] == cands[1][0]:
                     return None
                 return cands[0][1]
+            # blanket impl `impl<T: Bound> Trait for T`
+            blanket = [d for d in self.by_method.get(meth, []) if self.impl_of(d)[1] is not None and last_seg(self.impl_of(d)[1]) == last_seg(trait)
+                       and re.match(r"^[A-Z]\w?$", self.impl_of(d)[0] or "") and not re.search(r"\bfor\s+&", self._impl_cache.get(self._impl_key(d), ""))]
+            if len(blanket) == 1 and not self.is_external(trait):
+                return blanket[0]
             return None
         # module::<impl path::Type>::method (inherent impl written in another module)
         mi = re.match(r"^(?:[\w:]+::)?<impl ([^<>]+(?:<.*>)?)>::(\w+)(?:::<.*>)?$", c)
@@ -386,15 +454,27 @@ class Program:
         m = re.search(r"<impl at ([^:>]+):(\d+):", defname)
         return (m.group(1), int(m.group(2))) if m else None
 
+    @staticmethod
+    def _owner_method(owner):
+        parts = [x for x in split_top(owner, "::") if x and not x.startswith("<") or x.startswith("<impl")]
+        parts = [x for x in parts if not re.match(r"^<[^i]", x)]
+        return re.sub(r"#\d+$", "", parts[-1]) if parts else owner
+
     def resolve_promoted(self, raw):
         m = re.match(r"^(.*)::promoted\[(\d+)\]$", raw)
         if not m:
             return None
         owner = m.group(1)
-        cands = self.promoted.get((owner.split("::")[-1], int(m.group(2))), [])
+        cands = self.promoted.get((self._owner_method(owner), int(m.group(2))), [])
         if len(cands) == 1:
             return cands[0][1]
-        ty = last_seg("::".join(owner.split("::")[:-1])) if "::" in owner else None
+        mi = re.search(r"<impl (?:.* for )?([^<>]+?)>", owner)
+        if mi:
+            want = last_seg(mi.group(1))
+            hit = [fn for o, fn in cands if self.impl_of(o + "::x")[0] == want]
+            if len(hit) >= 1:
+                return hit[0]
+        ty = last_seg("::".join(x for x in split_top(owner, "::")[:-1] if not x.startswith("<"))) if "::" in owner else None
         for o, fn in cands:
             if self.impl_of(o + "::x")[0] == ty:
                 return fn
@@ -897,6 +977,17 @@ class Engine:
         if isinstance(f, VStruct) and f.name.startswith("{closure@"):
             loc = f.name[len("{closure@"):-1]
             d = self.P.closures.get(loc)
+            allc = self.P.closures_all.get(loc, [])
+            if len(allc) > 1 and f.origin:
+                base = re.sub(r"#\d+$", "", f.origin)
+                mk_ = re.search(r"#(\d+)$", f.origin)
+                same = [x for x in allc if re.sub(r"#\d+$", "", x).startswith(base + "::{closure")]
+                # the k-th instance of a macro-generated item owns the k-th instance of its closures
+                pref = [x for x in same if (re.search(r"#(\d+)$", x).group(1) if re.search(r"#(\d+)$", x) else None) == (mk_.group(1) if mk_ else None)]
+                if pref:
+                    d = pref[0]
+                elif same:
+                    d = same[0]
             if d is None:
                 raise Unsupported("closure body not found: " + loc)
             fn = self.P.fns[d]
@@ -1070,7 +1161,7 @@ class Engine:
         if raw.startswith("ZeroSized: "):
             raw = raw[len("ZeroSized: "):].strip()
             if raw.startswith("{closure@"):
-                return VStruct(raw[:match_close(raw, 0) + 1], [])
+                return VStruct(raw[:match_close(raw, 0) + 1], [], origin=fr.fn.name)
         if "::promoted[" in raw:
             fn = self.P.resolve_promoted(raw)
             if fn is None:
@@ -1082,6 +1173,9 @@ class Engine:
             if mm:
                 ty = mm.group(1)
                 return VInt(rng(ty)[1] if m.group(2) == "MAX" else rng(ty)[0], ty)
+        cfn = self.P.resolve_const(raw)
+        if cfn is not None:
+            return self.run_fn(cfn, [])
         # unit-like enum variant / struct used as a constant, fn items, ZSTs
         d = self.P.resolve(raw)
         if d is not None:
@@ -1174,7 +1268,7 @@ class Engine:
                 self.replace_at(c, path, v)
             if isinstance(v, VEnum):
                 if v.ty in ENUM_DISCR:
-                    return VInt(ENUM_DISCR[v.ty][v.variant], "i8")
+                    return VInt(ENUM_DISCR[v.ty][v.variant], "i8" if v.ty == "Ordering" else "isize")
                 names = ENUM_STD.get(v.ty) or self.P.enum_variants.get(v.ty)
                 if names is None or v.variant not in names:
                     raise Unsupported("discriminant of %s::%s" % (v.ty, v.variant))
@@ -1186,7 +1280,7 @@ class Engine:
             if rv[1] == "array":
                 return VSeq([self.eval_operand(fr, o) for o in rv[3]], "array")
             if rv[1] == "closure":
-                return VStruct(rv[2], [self.eval_operand(fr, o) for o in rv[3]])
+                return VStruct(rv[2], [self.eval_operand(fr, o) for o in rv[3]], origin=fr.fn.name)
             name = rv[2]
             vals = [self.eval_operand(fr, o) for o in rv[3]]
             parts = split_path(name)
